@@ -294,6 +294,16 @@ def check_sample(ctx, judge, lawname, Ei, Fi, G, G0, K, K0, ctor=None):
     Ei, Fi, G, G0, K, K0 = (np.array(a, dtype=float) for a in (Ei, Fi, G, G0, K, K0))
     args0 = [a.copy() for a in (Ei, Fi, G, G0, K, K0)]
     law = getattr(mm, lawname)(*(ctor if ctor is not None else (Ei, Fi)))
+    if ctor is not None and all(isinstance(a, np.ndarray) for a in ctor) and judge.ctx.rng.random() < 0.3:
+        # a stiffness sweep that reuses its arrays for the next law: the arrays handed to the constructor are modified in place
+        # afterwards; whatever the law object answers from now on must still be ONE consistent hyperelastic law
+        for a in ctor:
+            a *= 7
+        judge.ctx.cls("stiffness_arrays_modified_after_construction")
+        # (the law may have copied its parameters or follow the arrays - both are consistent laws; the magnitudes used for the
+        #  rounding allowances below take the larger of the two)
+        Ei, Fi = 7 * Ei, 7 * Fi
+        args0[0], args0[1] = Ei.copy(), Fi.copy()
     site = lawname
     det = {"law": lawname, "Ei": Ei, "Fi": Fi, "B_Gamma": G, "B_Gamma0": G0, "B_Kappa": K, "B_Kappa0": K0}
     Emax, Fmax = float(Ei.max()), float(Fi.max())
